@@ -14,6 +14,8 @@ func main() {
 	switch os.Args[1] {
 	case "factgen":
 		err = cmdFactgen(os.Args[2:])
+	case "l1":
+		err = cmdL1(os.Args[2:])
 	case "pure":
 		err = cmdPure(os.Args[2:])
 	default:
